@@ -87,6 +87,11 @@ def build(files, shape, kinds, context="map", is_root=True, ident=[0]):
     me = ident[0]
     ident[0] += 1
     lines, flat = [], []
+    if not is_root and kinds[me - 1] in ("empty", "blank"):
+        # an include file without content (or only white space / a comment); its own children are not reachable
+        for child in shape:
+            skip_ids(child, ident)
+        return ([] if kinds[me - 1] == "empty" else ["  ", "# nothing here", ""]), []
     if is_root:
         opener, ctx = "MAP", "map"
     else:
@@ -126,8 +131,14 @@ def build(files, shape, kinds, context="map", is_root=True, ident=[0]):
     return lines, flat
 
 
+def skip_ids(shape, ident):
+    ident[0] += 1
+    for c in shape:
+        skip_ids(c, ident)
+
+
 def entries():
-    return ["open", "load", "loads_cwd_root", "workers"]
+    return ["open", "open_relative", "load", "load_relative", "loads_cwd_root", "workers"]
 
 
 def run_entry(entry, root_path, root_text, root_dir, elsewhere, public):
@@ -139,6 +150,13 @@ def run_entry(entry, root_path, root_text, root_dir, elsewhere, public):
         if entry == "open":
             os.chdir(elsewhere)
             d = mappyfile.open(root_path) if public else impl.todict().transform(impl.parser(True, False).parse_file(root_path))
+        elif entry == "open_relative":
+            os.chdir(root_dir)
+            d = mappyfile.open("root.map") if public else impl.todict().transform(impl.parser(True, False).parse_file("root.map"))
+        elif entry == "load_relative":
+            os.chdir(root_dir)
+            with open("root.map", encoding="utf-8", newline="") as fp:
+                d = mappyfile.load(fp) if public else impl.todict().transform(impl.parser(True, False).load(fp))
         elif entry == "load":
             os.chdir(elsewhere)
             with open(root_path, encoding="utf-8", newline="") as fp:
@@ -186,14 +204,19 @@ def clean_dir(d):
 def run_trees(res, n, si, public=False, limit=None):
     style = PATH_STYLES[si]
 
-    def body(root_dir, elsewhere):
+    def body(root_dir0, elsewhere):
         count = 0
+        root_dir1 = os.path.join(os.path.dirname(root_dir0), "rootdir2")
+        os.makedirs(root_dir1, exist_ok=True)
+        kind_alphabet = ("block", "lines", "empty", "blank") if n <= 4 else ("block", "lines", "empty")
         for shape in tree_shapes(n):
-            for kinds in itertools.product(("block", "lines"), repeat=n - 1):
+            for kinds in itertools.product(kind_alphabet, repeat=n - 1):
                 for nl in ("\n", "\r\n"):
                     if limit and count >= limit:
                         return
                     count += 1
+                    # two root directories used alternately: the same relative names, different (stale) content in the other one
+                    root_dir = (root_dir0, root_dir1)[count % 2]
                     clean_dir(root_dir)
                     files = Files(root_dir, style, nl)
                     lines, flat = build(files, shape, kinds, ident=[0])
@@ -373,7 +396,7 @@ def run_unit(unit):
 
 def describe(tier):
     return {"rule": "case = (include tree, cut kinds, path style, line ending, entry point); state = distinct resulting dictionary",
-            "bounds": {"max_files": 5, "tree_shapes": {n: len(list(tree_shapes(n))) for n in range(1, 6)}, "cut_kinds": ["block", "lines"],
+            "bounds": {"max_files": 5, "tree_shapes": {n: len(list(tree_shapes(n))) for n in range(1, 6)}, "cut_kinds": ["block", "lines", "empty file", "blank/comment-only file (<= 4 files)"],
                        "path_styles": [s["name"] for s in PATH_STYLES], "line_endings": ["LF", "CRLF"], "entries": entries(), "chain_depths": "0..7"}}
 
 
